@@ -98,6 +98,8 @@ type actorState struct {
 	shutSeen     bool
 	shutReported bool
 	stalledSide  *Call // a submission on a second connection whose body upload is stalled
+	resumeCall   *Call // a stalled upload on the main connection that continues at resumeAt
+	resumeAt     time.Duration
 	exitAt       time.Duration
 	exitCode     int
 	exitDue      bool
@@ -608,6 +610,9 @@ func (e *Engine) doOp(s *actorState, op Op, scripted bool) {
 		a.Calls = append(a.Calls, a.Cur)
 		e.r.Settle()
 		e.r.Fault("stalled-body-upload")
+		if op.D > 0 {
+			s.resumeCall, s.resumeAt = a.Cur, e.r.Now()+op.D
+		}
 	case "truncated-response": // sends half of the body of a /response for the current id, then the process dies
 		id := e.resolveID(a, op.Arg)
 		body := e.respBody(s, op)
@@ -757,6 +762,20 @@ func (e *Engine) enabled() (acts []action, due time.Duration, hasDue bool) {
 					e.r.Settle()
 				}})
 			}
+		}
+	}
+	// 1b. stalled uploads that continue
+	for _, s := range e.actors {
+		s := s
+		if s.resumeCall != nil && s.a.P.Alive && s.resumeCall.Pending() && consider(s.resumeAt) {
+			acts = append(acts, action{"resume-upload " + s.a.Who, func() {
+				c := s.resumeCall
+				s.resumeCall = nil
+				e.r.NextStep()
+				c.Resume(true)
+				e.r.Settle()
+				e.w.absorb()
+			}})
 		}
 	}
 	// 2. extension exits after SHUTDOWN event
